@@ -49,6 +49,8 @@ structure DState where
   pats : Array (List (Nat × Re)) := #[]
   /-- per mode: lookahead patterns `(tid, re)` -/
   lapats : Array (List (Nat × Re)) := #[]
+  /-- configured polarity of the lookahead of (mode, token type) -/
+  lapols : Array (List (Nat × Bool)) := #[]
   /-- world (C12-C14): saved compilations `id ↦ (automata, configuration, class tables)`,
       the compile table `cfg ↦ compilation`, the world state -/
   comps : Array (Array ModeDfa × Array ModeCfg × Array (List (Nat × Nat))) := #[]
@@ -192,8 +194,12 @@ def specVerdict (st : DState) (real : List String) : Array SpecIt × Option Stri
         let bs := boundaries st.input
         let parsed := items.filterMap parseFindItem
         if parsed.length != bs.length then some "S FAIL findall: wrong number of positions" else
+        -- the lookahead conditions are judged with the configured polarity (where it was given)
+        let pol := st.lapols.getD m []
+        let Mc : ModeDfa := { M with las := M.las.map fun (t, L) =>
+          (t, match pol.lookup t with | some p => { L with positive := p } | none => L) }
         let bad := (bs.zip parsed).filter fun ((p, w), (q, r)) =>
-          p != q || !(specFindOK M st.cm 0 w (r.map fun (t, l) => (t, l)))
+          p != q || !(specFindOK Mc st.cm 0 w (r.map fun (t, l) => (t, l)))
         -- pattern-level rule (C01) when the reference patterns of a lookahead-free mode are given
         let ps := st.pats.getD m []
         let cmR : Nat → Nat → Bool := cmT st.rtables.toList
@@ -658,6 +664,11 @@ def step (st : DState) (line : String) : DState × Option String :=
     match m.toNat?, t.toNat?, parseAst r with
     | some m, some t, some (a, []) =>
       ({ st with pats := (ensure st.pats m []).modify m fun l => l ++ [(t, a.desugar)] }, none)
+    | _, _, _ => (st, some "bad-op")
+  | ["lapol", m, t, p] =>
+    match m.toNat?, t.toNat?, p.toNat? with
+    | some m, some t, some p =>
+      ({ st with lapols := (ensure st.lapols m []).modify m fun l => l ++ [(t, p != 0)] }, none)
     | _, _, _ => (st, some "bad-op")
   | "lapat" :: m :: t :: r =>
     match m.toNat?, t.toNat?, parseAst r with
